@@ -29,10 +29,14 @@ type Directives struct {
 	TTL    uint32 // ttl<N> (default 300)
 	MixTTL bool   // ttlm: record i gets TTL+i
 	Opt    bool   // opt: reply carries an OPT with options
+	NsTTL  int64  // nsttl<N>: TTL of the authority and additional records (-1 = same rule as the answers)
+	Deep   int    // deep<N>: a CNAME chain of nested names followed by N A records owned by a long label under the
+	// deepest name: compresses to ~16 bytes per record with full name compression, but to ~80 bytes per
+	// record for an encoder that bounds the depth of compression pointer chains
 }
 
 func ParseDirectives(firstLabel string) Directives {
-	d := Directives{Kind: "ok", N: 2, TTL: 300}
+	d := Directives{Kind: "ok", N: 2, TTL: 300, NsTTL: -1}
 	for _, p := range strings.Split(strings.ToLower(firstLabel), "-") {
 		num := func(prefix string) (int, bool) {
 			if strings.HasPrefix(p, prefix) {
@@ -62,6 +66,10 @@ func ParseDirectives(firstLabel string) Directives {
 			d.Kind, d.HTTP = "http", n
 		} else if n, ok := num("big"); ok {
 			d.Big = n
+		} else if n, ok := num("deep"); ok {
+			d.Deep = n
+		} else if n, ok := num("nsttl"); ok {
+			d.NsTTL = int64(n)
 		} else if n, ok := num("ttl"); ok {
 			d.TTL = uint32(n)
 		} else if n, ok := num("d"); ok {
@@ -240,9 +248,28 @@ func BuildReply(name string, qtype, qclass uint16, tag string, serial uint32, d 
 	}
 	if d.N >= 3 {
 		s := sub(key, serial, 1000)
-		m.Ns = append(m.Ns, &dns.NS{Hdr: dns.RR_Header{Name: parentOf(name), Rrtype: dns.TypeNS, Class: class, Ttl: ttlOf(d.N + 1)}, Ns: hostName(s, "ns.test.")})
+		nsTTL := func(i int) uint32 {
+			if d.NsTTL >= 0 {
+				return uint32(d.NsTTL)
+			}
+			return ttlOf(i)
+		}
+		m.Ns = append(m.Ns, &dns.NS{Hdr: dns.RR_Header{Name: parentOf(name), Rrtype: dns.TypeNS, Class: class, Ttl: nsTTL(d.N + 1)}, Ns: hostName(s, "ns.test.")})
 		if d.N >= 4 {
-			m.Extra = append(m.Extra, &dns.A{Hdr: dns.RR_Header{Name: hostName(s, "ns.test."), Rrtype: dns.TypeA, Class: class, Ttl: ttlOf(d.N + 2)}, A: net.IP(s[8:12]).To4()})
+			m.Extra = append(m.Extra, &dns.A{Hdr: dns.RR_Header{Name: hostName(s, "ns.test."), Rrtype: dns.TypeA, Class: class, Ttl: nsTTL(d.N + 2)}, A: net.IP(s[8:12]).To4()})
+		}
+	}
+	if d.Deep > 0 {
+		cur := name
+		for k := 1; k <= 5; k++ {
+			next := fmt.Sprintf("x%d.%s", k, cur)
+			m.Answer = append(m.Answer, &dns.CNAME{Hdr: dns.RR_Header{Name: cur, Rrtype: dns.TypeCNAME, Class: class, Ttl: ttlOf(3000 + k)}, Target: next})
+			cur = next
+		}
+		owner := strings.Repeat("l", 60) + "." + cur
+		for i := 0; i < d.Deep; i++ {
+			s := sub(key, serial, 4000+i)
+			m.Answer = append(m.Answer, &dns.A{Hdr: dns.RR_Header{Name: owner, Rrtype: dns.TypeA, Class: class, Ttl: ttlOf(4000 + i)}, A: net.IP(s[:4]).To4()})
 		}
 	}
 	if d.Big > 0 {
